@@ -142,8 +142,9 @@ struct Slot {
 	alignas(64) unsigned char storage[sizeof(FSM::Instance) + 64];
 	FSM::Instance* fsm = nullptr;
 	vf::Ctx ctx;
-	vf::ScriptedRng rng;
 	Probe probe;
+	std::string buf;			// JSON array body: bytes written by the last save()
+	int ret = -1;				// return value of the last replay call (0/1), -1 otherwise
 	std::string lastSnap;		// observed state after the previous call ("pre" of the next)
 	long seq = 0;
 };
@@ -154,6 +155,8 @@ template <typename F>
 static void apiCall(Slot& sl, int slotId, const std::string& label, bool logOn, F&& f) {
 	Probe& p = sl.probe;
 	p.resetCall();
+	vf::currentProbe() = &p;
+	sl.buf.clear(); sl.ret = -1;
 	const size_t breaksBefore = vf::breakLog().hits.size();
 	std::string scj; scriptJson(scj, p.sc);
 	f();
@@ -166,6 +169,7 @@ static void apiCall(Slot& sl, int slotId, const std::string& label, bool logOn, 
 		o += ",\"ev\":["; o += p.ev; o += "]";
 		o += ",\"post\":"; o += post;
 		o += ",\"draws\":"; jint(o, p.draws);
+		o += ",\"buf\":["; o += sl.buf; o += "],\"ret\":"; jint(o, sl.ret);
 		o += ",\"badThis\":"; jarr(o, (int) p.badThis.size(), [&](int i) { jint(o, p.badThis[i]); });
 		o += ",\"badOrigin\":"; jarr(o, (int) p.badOrigin.size(), [&](int i) { jint(o, p.badOrigin[i]); });
 		o += ",\"asserts\":["; { auto& h = vf::breakLog().hits; for (size_t i = breaksBefore; i < h.size(); ++i) { if (i > breaksBefore) o += ','; o += "[\""; o += h[i].first; o += "\","; jint(o, h[i].second); o += ']'; } }
@@ -197,6 +201,27 @@ static void doImmediate(FSM::Instance& fsm, int k, int d1, int p) {
 #endif
 		default: break; }
 }
+
+template <typename TPolicy> struct MakeT {
+	static M::Transition go(int o, int d, int k, int p) {
+		const hfsm2::StateID org = o == 0 ? hfsm2::INVALID_STATE_ID : (hfsm2::StateID) (o - 1);
+		if (p != 0) return M::Transition{org, (hfsm2::StateID) (d - 1), kindType(k), TPolicy::make(p)};
+		return M::Transition{org, (hfsm2::StateID) (d - 1), kindType(k)};
+	}
+};
+template <> struct MakeT<void> {
+	static M::Transition go(int o, int d, int k, int) {
+		const hfsm2::StateID org = o == 0 ? hfsm2::INVALID_STATE_ID : (hfsm2::StateID) (o - 1);
+		return M::Transition{org, (hfsm2::StateID) (d - 1), kindType(k)};
+	}
+};
+static M::Transition makeTransition(int o, int d, int k, int p) { return MakeT<PayPolicy>::go(o, d, k, p); }
+
+#if defined(FX_MANUAL) && defined(HFSM2_ENABLE_TRANSITION_HISTORY)
+static bool doReplayEnter(FSM::Instance& fsm, const M::Transition* ts, hfsm2::Short n) { return fsm.replayEnter(ts, n); }
+#else
+static bool doReplayEnter(FSM::Instance&, const M::Transition*, hfsm2::Short) { fprintf(stderr, "replayEnter unavailable\n"); exit(3); }
+#endif
 
 #ifdef FX_MANUAL
 static void manualEnter(FSM::Instance& fsm) { fsm.enter(); }
@@ -241,9 +266,18 @@ static int run() {
 		else if (c == "new") {
 			if (sl.fsm) { fprintf(stderr, "slot busy\n"); return 3; }
 			memset(sl.storage, fill, sizeof sl.storage);
-			sl.ctx.probe = &sl.probe; sl.rng.probe = &sl.probe; sl.seq = 0; sl.lastSnap.clear();
+			sl.ctx.probe = &sl.probe; sl.seq = 0; sl.lastSnap.clear();
 			sl.probe.instance = sl.storage;
-			apiCall(sl, cur, labelOf(t), logOn, [&] { sl.fsm = new (sl.storage) FSM::Instance{sl.ctx, sl.rng}; });
+			apiCall(sl, cur, labelOf(t), logOn, [&] { static vf::ScriptedRng rng; sl.fsm = new (sl.storage) FSM::Instance{&sl.ctx, rng}; });
+		}
+		else if (c == "copy") {
+			// copy <src slot> : copy-construct the instance of <src slot> into the current (empty) slot
+			Slot& src = slots[I(1)];
+			if (sl.fsm || !src.fsm) { fprintf(stderr, "bad copy\n"); return 3; }
+			memset(sl.storage, fill, sizeof sl.storage);
+			sl.ctx.probe = &sl.probe; sl.seq = 0; sl.lastSnap = src.lastSnap;
+			sl.probe.instance = sl.storage;
+			apiCall(sl, cur, labelOf(t), logOn, [&] { sl.fsm = new (sl.storage) FSM::Instance{*src.fsm}; sl.fsm->setContext(&sl.ctx); });
 		}
 		else if (c == "del") {
 			if (!sl.fsm) { fprintf(stderr, "no instance\n"); return 3; }
@@ -266,6 +300,21 @@ static int run() {
 			else if (c == "pa")       apiCall(sl, cur, labelOf(t), logOn, [&] { planAppend(fsm.plan((hfsm2::RegionID) (I(1) - 1)), I(2), I(3), kindFromName(t[4]), I(5)); });
 			else if (c == "pc")       apiCall(sl, cur, labelOf(t), logOn, [&] { fsm.plan((hfsm2::RegionID) (I(1) - 1)).clear(); });
 			else if (c == "pr")       apiCall(sl, cur, labelOf(t), logOn, [&] { planRemove(fsm.plan((hfsm2::RegionID) (I(1) - 1)), I(2)); });
+#endif
+#ifdef HFSM2_ENABLE_SERIALIZATION
+			else if (c == "save")     apiCall(sl, cur, labelOf(t), logOn, [&] {
+				FSM::Instance::SerialBuffer b; static_cast<const FSM::Instance&>(fsm).save(b);
+				for (unsigned i = 0; i < sizeof(b.data()); ++i) { if (i) sl.buf += ','; jint(sl.buf, b.data()[i]); } });
+			else if (c == "load")     apiCall(sl, cur, labelOf(t), logOn, [&] {
+				FSM::Instance::SerialBuffer b; for (unsigned i = 0; i < sizeof(b.data()) && i + 1 < t.size(); ++i) b.data()[i] = (uint8_t) I(i + 1);
+				fsm.load(b); });
+#endif
+#ifdef HFSM2_ENABLE_TRANSITION_HISTORY
+			else if (c == "replay" || c == "replayenter") apiCall(sl, cur, labelOf(t), logOn, [&] {
+				// replay <src slot> <count> {origin dest kind payload}
+				const int n = I(2); std::vector<M::Transition> ts;
+				for (int i = 0; i < n; ++i) ts.push_back(makeTransition(I(3 + 4 * i), I(4 + 4 * i), kindFromName(t[5 + 4 * i]), I(6 + 4 * i)));
+				sl.ret = (c == "replay" ? fsm.replayTransitions(ts.data(), (hfsm2::Short) n) : doReplayEnter(fsm, ts.data(), (hfsm2::Short) n)) ? 1 : 0; });
 #endif
 			else { fprintf(stderr, "unknown command %s\n", c.c_str()); return 3; }
 		}
